@@ -43,6 +43,7 @@ CONSTANTS T1, T2,        \* the two trace-ID field names
           SeqPaths,      \* ingestion paths that keep the client's field order (msgpack bytes)
           MapPaths,      \* ingestion paths that go through a Go map
           PTypings,      \* typings enumerated for the parent-ID fields (subset of IdTypings)
+          STypings,      \* typings enumerated for meta.signal_type (subset of SigTypings)
           Faithful       \* TRUE: the graph also contains what the unchanged code does
 
 VARIABLES inp, out, act
@@ -54,7 +55,7 @@ Fields == {T1, T2, P1, P2, MT, MS}
 IdTypings == {"absent", "str", "empty", "nonstr"}
 SigTypings == {"absent", "log", "trace", "empty", "nonstr"}
 Typings == {ty \in [Fields -> IdTypings \cup SigTypings] :
-              /\ ty[MS] \in SigTypings
+              /\ ty[MS] \in STypings
               /\ \A f \in {T1, T2, MT} : ty[f] \in IdTypings
               /\ \A f \in {P1, P2} : ty[f] \in PTypings}
 
